@@ -91,10 +91,10 @@ def _session(ctx, binary):
     # MC: every interleaving on small constants
     mcfg = "MCChainSyncSession.cfg"
     if ctx.thorough:
-        mcfg = ctx.path("MCChainSyncSession4.cfg")
+        mcfg = ctx.path("MCChainSyncSession5.cfg")
         src = open(os.path.join(vlib.SPEC, "proto", "MCChainSyncSession.cfg")).read()
-        open(mcfg, "w").write(src.replace("MaxBlocks = 3", "MaxBlocks = 4").replace("MaxSwitch = 1", "MaxSwitch = 2")
-                              .replace("Depths = {1}", "Depths = {0, 1}"))
+        open(mcfg, "w").write(src.replace("MaxBlocks = 3", "MaxBlocks = 5").replace("MaxSwitch = 1", "MaxSwitch = 2")
+                              .replace("Depths = {1}", "Depths = {0, 1, 2}"))
     r = ctx.tlc_mc("proto", "MCChainSyncSession", mcfg, workers=4, timeout=1500,
                    required_actions=["Grow", "Switch", "ServerRecv", "ServerReply", "CSend", "ClientRecv", "ClientPop"])
     sec["mc"] = {"cfg": os.path.basename(mcfg), "distinct": r["distinct"], "generated": r["generated"],
@@ -102,7 +102,7 @@ def _session(ctx, binary):
 
     # M2: TLC scripts -> real Client + Server + RollbackBuffer
     scripts = ctx.path("session_scripts.ndjson")
-    num, depth = (400, 60) if ctx.thorough else (25, 45)
+    num, depth = (3000, 60) if ctx.thorough else (25, 45)
     gcfg = ctx.path("GenChainSyncSession.cfg")
     src = open(os.path.join(vlib.SPEC, "proto", "GenChainSyncSession.cfg")).read()
     open(gcfg, "w").write(src.replace("MaxOps = 40", "MaxOps = %d" % (depth - 5)))
@@ -131,20 +131,21 @@ def _session(ctx, binary):
 
     # M3: random producer / client policy -> TraceChainSyncSession (level 2 = script + agent states + buffer)
     tr = ctx.path("session_trace.ndjson")
-    runs, steps = (60, 120) if ctx.thorough else (6, 80)
+    runs, steps = (300, 150) if ctx.thorough else (6, 80)
     ctx.run_bin(binary, ["session-trace", "--seed", ctx.seed, "--runs", runs, "--steps", steps, "--out", tr])
     ok, matched, total, first = ctx.tlc_trace("proto", "TraceChainSyncSession", "TraceChainSyncSession2.cfg", tr)
     sec["m3"] = {"runs": runs, "events": total, "matched_level2": matched}
     ctx.cov["traces_validated_against_impl"] += runs
     ctx.cov["evaluations"] += total
     if not ok:
+        # attribute the rejection: the level that first rejects an event decides (later events are tainted)
         ok1, m1, _, f1 = ctx.tlc_trace("proto", "TraceChainSyncSession", "TraceChainSyncSession1.cfg", tr, count=False)
-        if ok1:
-            sec["drift"].append("session trace event %d accepted with agent states but not with the buffer content: %s"
+        if ok1 or m1 > matched:
+            sec["drift"].append("session trace event %d is accepted with the agents' states but not with the buffer content: %s"
                                 % (matched + 1, json.dumps(first)[:300]))
         else:
             ok0, m0, _, f0 = ctx.tlc_trace("proto", "TraceChainSyncSession", "TraceChainSyncSession0.cfg", tr, count=False)
-            if ok0 or (f1 or {}).get("err"):
+            if ok0 or m0 > m1 or (f1 or {}).get("err"):
                 ctx.report("session/chainsync/trace/%s-%s" % (f1.get("a"), f1.get("msg", "")),
                            "chain-sync session: after event %d the agents' states %s/%s (or an agent error %r) do not follow "
                            "the table: %s" % (m1 + 1, f1.get("cst"), f1.get("sst"), f1.get("err", ""), json.dumps(f1)[:300]),
@@ -170,6 +171,7 @@ def _session(ctx, binary):
             ctx.selftest("session: client state of event %d corrupted (level 1)" % (i + 1), (not oks) and ms == i)
     for d in sec["drift"][:5]:
         ctx.notes.append("DRIFT " + d)
+        ctx.log("DRIFT (design model, no verdict): " + d[:260])
     sec["drift"] = sec["drift"][:20]
     ctx.cov["chainsync_session"] = sec
     with open(scripts) as f:
